@@ -332,6 +332,7 @@ class LoopMixin:
         it.trail.append("loop#%s:iter" % k)
         it.writes = []
         outs = []
+        it.frames[it.fid]["_done"] = done_sv      # visible to ghost updates attached to call sites in the body
         el = self.elem_value(it, sq, hint, mode, i)
         for ao in self.assign(it, s.target, el):
             if ao.kind != "normal":
